@@ -88,7 +88,7 @@ def _real_len(model_len, model_pc, variant_pages, rng):
     return full * 1024 + (rng.choice([1, 511, 512, 1023]) if odd else 0)
 
 
-def _fw(n, seed):
+def _fw(n, seed, tail=None, tail_len=0):
     r = random.Random(seed * 1000003 + n)
     # distinct pages: a counter pattern plus noise so that swapped pages are visible
     b = bytearray(r.getrandbits(8) for _ in range(min(n, 64)))
@@ -101,6 +101,10 @@ def _fw(n, seed):
     out[:len(b)] = b
     if n:
         out[-1] = (out[-1] | 1)  # last byte non-zero: padding is distinguishable from data
+    if tail is not None and n:
+        # files that END in bytes a flasher might be tempted to drop: erased-flash 0xff, zeros, text whitespace
+        k = min(n, max(1, tail_len))
+        out[n - k:] = bytes([tail]) * k
     return bytes(out)
 
 
@@ -109,7 +113,7 @@ def _job(args):
     os.makedirs(workdir, exist_ok=True)
     recs = []
     for j in jobs:
-        fw = _fw(j['len'], j.get('fwseed', 0))
+        fw = _fw(j['len'], j.get('fwseed', 0), j.get('tail'), j.get('tail_len', 0))
         path = os.path.join(workdir, 'fw_%d.bin' % os.getpid())
         with open(path, 'wb') as f:
             f.write(fw)
@@ -152,13 +156,16 @@ def gen_jobs(run, behaviours):
                 for op in range(2 * npages):
                     if rng.random() < 0.35:
                         sched[op] = {'busy': [rng.choice(timeouts) for _ in range(rng.randrange(0, 4))], 'final_t': rng.choice([0, 0, 0, 3])}
+            tail = rng.choice([None, None, 0xff, 0x00, 0x20, 0x0a])
             jobs.append({'kind': 'timing', 'variant': variant, 'len': n, 'schedule': sched, 'strict': rng.random() < 0.5,
                          'start_err': rng.random() < 0.3, 'default_busy': [rng.choice(timeouts)] if rng.random() < 0.7 else [],
-                         'fwseed': rng.randrange(1000)})
+                         'fwseed': rng.randrange(1000), 'tail': tail, 'tail_len': rng.choice([1, 3, 1024, 1500])})
         # oversize
         for extra in [1, 2, 1023, 1024, 1025, 4096, 100000] + [rng.randrange(1, 300000) for _ in range(4)]:
-            jobs.append({'kind': 'oversize', 'variant': variant, 'len': capb + extra, 'strict': True,
-                         'start_err': rng.random() < 0.3})
+            for tail in (None, 0xff, 0x00, 0x0a):
+                # (the excess over the capacity, and more, made of bytes that "do not matter")
+                jobs.append({'kind': 'oversize', 'variant': variant, 'len': capb + extra, 'strict': True,
+                             'start_err': rng.random() < 0.3, 'tail': tail, 'tail_len': extra + rng.choice([0, 1, 2000])})
     # (B2) single and double error injections at every erase / write step
     statuses = list(range(1, 16))
     for npages in ([1, 2, 3] if run.tier == 'quick' else [1, 2, 3, 4, 5, 8]):
